@@ -870,7 +870,13 @@ class FnTranslator:
         if self.is_result:
             return self.result_comp(e, env)
         pre = []
-        term, ty = self.expr(e, env, pre, self.val_ty)
+        term, ty = self.expr(e, env, pre, self.val_ty if self.val_ty[0] != "opaque" else None)
+        if self.val_ty[0] == "opaque" and ty[0] == "struct" and self.ret == self.val_ty:
+            # (b0507) a struct value returned where the signature names a type the unit does not know
+            # (`Arc<dyn Validator>`, `Box<dyn Policy>`): rustc accepted it, so it is the unsizing coercion of that struct
+            # to a trait object; the generated definition returns the concrete struct
+            self.dropped.append("unsizing coercion of the returned %s to the declared %s" % (ty[1], self.val_ty[1]))
+            self.ret = self.val_ty = ty
         self.check_ty(ty, self.val_ty, "return value")
         return self.wrap(pre, P(self.pack(env, term)))
 
@@ -2349,6 +2355,10 @@ class FnTranslator:
             if v == "None":
                 if want is not None and want[0] == "opt": return "none", want
                 return "none", ("opt", ("unknown",))
+            if v in self.u.externals and not self.u.externals[v].get("params"):
+                # (b0507) a constant of another file whose value is outside the subset: declared external without parameters
+                term, t, _k = self.call_external(v, [], env, pre)
+                return term, t
             c = self.u.const_value(v, self.local_consts)
             if c is not None:
                 if c[0] == "expr":
@@ -2391,6 +2401,11 @@ class FnTranslator:
                     ty, ce = idx.consts[segs[1]]
                     rt = self.u.resolve(ty)
                     if is_int(rt): return self.lit(self.u.const_eval(ce, {}), rt), rt
+        if "::".join(segs) in self.u.externals and not self.u.externals["::".join(segs)].get("params"):
+            # (b0507) an associated constant of a type of another file / crate (`VelocityControlSpec::UNLIMITED`): declared
+            # external without parameters
+            term, t, _k = self.call_external("::".join(segs), [], env, pre)
+            return term, t
         raise RsError("path %s is outside the subset" % "::".join(segs))
 
     def unary(self, e, env, pre, want):
@@ -2787,6 +2802,10 @@ class FnTranslator:
             if t == INTLIT: raise RsError("Some(literal) without a type")
             return "(some %s)" % term, ("opt", t), "val"
         if segs in (["Ok"], ["Err"]): raise RsError("Ok/Err outside tail position")
+        if segs in (["Arc", "new"], ["Box", "new"], ["Rc", "new"]) and len(args) == 1:
+            # (b0507) `Arc<T>` / `Box<T>` / `Rc<T>` are T (see resolve): their constructors are the identity
+            term, t = self.expr(args[0], env, pre, want if want is not None and want[0] != "opaque" else None)
+            return term, t, "val"
         if segs in (["min"], ["max"], ["cmp", "min"], ["cmp", "max"], ["core", "cmp", "min"], ["core", "cmp", "max"]):
             a, at, b, bt = self.operands(args[0], args[1], env, pre, want)
             if at != bt or not is_int(at): raise RsError("min/max on %r, %r" % (at, bt))
@@ -3480,6 +3499,12 @@ class FnTranslator:
             return "(%s.getD %s)" % (base, d), el, "val"
         if m == "unwrap_or_default" and is_uint(el):
             return "(%s.getD 0)" % base, el, "val"
+        if m == "unwrap_or_default" and el[0] == "struct" and (el[1], "default") in self.u.fi.fns and not args:
+            # (b0507) `impl Default for S` of the unit's files: the translated `S::default()`
+            info = self.u.get_fn(el[1], "default")
+            d, dt, kind = self.call_translated(info, [], env, pre)
+            if kind != "val" or dt != el: raise RsError("unwrap_or_default: %s::default() outside the subset" % el[1])
+            return "(%s.getD %s)" % (base, d), el, "val"
         if m in ("unwrap_or_else", "or_else"):
             pats, ir, t = self.closure1(args[0], [], env, el if m == "unwrap_or_else" else bt)
             rt = el if m == "unwrap_or_else" else bt
